@@ -367,7 +367,7 @@ def main():
         if vlib.os.path.exists(corpus):
             for c in json.load(open(corpus)):
                 items.append((c["dataset"], c["call"]))
-        nds = run.n(100, 4000)
+        nds = run.n(100, 1500)
         for k in range(nds):
             ds = gen_dataset(run.rng, k)
             for call in gen_calls(run.rng, ds, 30):
